@@ -610,7 +610,7 @@ func init() {
 		NonTrivial: func(ep *Episode) bool { return ep.W.maxInflight >= ep.W.effConc(ep.W.cfg.Conc) || ep.W.maxInflight >= 2 },
 	})
 	// C07 — outcomes
-	register(&Property{ID: "C07", Owns: []string{"C08.a"}, Rule: "episodes in which >=2 jobs with different outcomes (value/error/panic) were in flight or queued together and their handles were read; distinct = schedule/program hash",
+	register(&Property{ID: "C07", Owns: []string{"C08.a"}, Pre: c07Pre, Rule: "episodes in which >=2 jobs with different outcomes (value/error/panic) were in flight or queued together and their handles were read; distinct = schedule/program hash",
 		Gen: func(r *simrt.Rand, tier string) (Cfg, *Program) {
 			pf := baseProfile()
 			pf.Conc = []int{1, 2, 3, 4, 8}
